@@ -71,6 +71,8 @@ class ScenarioSpec:
         self.bound_charts = 0
         self.props = 0
         self.p_detach = 0.0
+        self.p_logical_clock = 0.2   # per scenario: a clock whose every reading during a step returns the next tick (sx.LogicalClock)
+        self.p_continue = 0.0        # per scenario: carry on after a ContractError / CodeEvaluationError / ... as a client catching it would
         self.strip_contracts = False
         self.guard_init = 'random'
         self.twin = 0.0             # probability that a second, independent interpreter of the SAME statechart is run interleaved
@@ -146,9 +148,13 @@ def run_scenario(rng, chart, spec, cases, stats, chart_key, script=None):
 
     def tick():
         holder['sc'].clock.time += 1
-    sc = sx.Scenario(chart, ignore_contract=spec.ignore_contract, initial_context={'tick': tick}, props=props,
+    logical = script is None and rng.random() < spec.p_logical_clock
+    carry_on = script is None and rng.random() < spec.p_continue
+    sc = sx.Scenario(chart, ignore_contract=spec.ignore_contract, initial_context={'tick': tick, 'res': sx.Resource()}, props=props,
                      n_rec=spec.n_rec, bound_callables=spec.bound_callables, bound_charts=bcharts,
-                     listener_order=order)
+                     listener_order=order, logical_clock=logical)
+    if logical:
+        stats['logical_clock_scenarios'] = stats.get('logical_clock_scenarios', 0) + 1
     holder['sc'] = sc
     sc.interp._evaluator._context['g'] = g0
     twin = None
@@ -258,7 +264,10 @@ def run_scenario(rng, chart, spec, cases, stats, chart_key, script=None):
             # after an exception the interpreter may be in a half-updated state; contract and
             # property errors end the scenario (as a user would), the others continue
             if case['out'][1][0] in ('EContract', 'EProperty', 'ECode', 'EKey', 'EAssert', 'EOther'):
-                dead = True
+                if carry_on and case['out'][1][0] in ('EContract', 'ECode'):
+                    stats['steps_after_an_error'] = stats.get('steps_after_an_error', 0) + 1
+                else:
+                    dead = True
 
 
 def nontrivial(case):
